@@ -22,7 +22,7 @@ ASSUMPTIONS = [
     'exact references in Fraction arithmetic (stbemv/oracles/slobo.py), validated against the two closed values the repository quotes',
 ]
 REQUIRED = {t: ['routine:h_1_4', 'routine:h_1_2', 'routine:h_1_2-curve', 'routine:h_1_2_pw', 'order:1', 'order:21', 'order:23(h_1_4)',
-                'rel:nonnegative', 'rel:constant', 'rel:scaling', 'rel:translation', 'interval:small', 'interval:large', 'degree:max', 'corner:repo-line-pieces']
+                'rel:nonnegative', 'rel:constant', 'rel:scaling', 'rel:translation', 'interval:small', 'interval:large', 'degree:max', 'corner:repo-line-pieces', 'corner:same-intervals-sequence']
             for t in ('quick', 'thorough')}
 TIMEOUT = {'quick': 600, 'thorough': 3600}
 ORDERS = list(range(1, 22, 2))
@@ -192,9 +192,56 @@ def run_corner(spec, acc):
     from ..oracles.refint import graded
     from src.norms import Slobodeckij
     rng = random.Random(spec['rseed'] + 5)
+    rules = {17: Slobodeckij(17), 21: Slobodeckij(21)}   # one object per order, reused for every corner (as the estimator does)
+    # ---- a sequence of corners with the SAME parameter intervals and different angles on one rule object, the pieces being
+    #      temporaries that are freed after each call (anything remembered between calls must not be keyed by object identity)
+    from src.parametrization import line
+
+    def fresh_pieces(ang):
+        C = np.array([0.3, -0.2])
+        P0 = C - np.array([1.0, 0.0])
+        P2 = C + np.array([math.cos(math.pi - ang), math.sin(math.pi - ang)])
+        return line(P0, C.copy(), x_start=1.0)[0], line(C.copy(), P2, x_start=2.0)[0]
+
+    def ref_corner(ang, n, depth):
+        C = np.array([[0.3], [-0.2]])
+        d2 = np.array([[math.cos(math.pi - ang)], [math.sin(math.pi - ang)]])
+
+        def pt(xh):
+            xh = np.asarray(xh, dtype=float)
+            return np.where(xh <= 2.0, C + np.array([[1.0], [0.0]]) * (np.minimum(xh, 2.0) - 2.0), C + d2 * (np.maximum(xh, 2.0) - 2.0))
+        Fl = lambda X: 0.6 * X[0] + 0.8 * X[1]
+        tot = 0.0
+        ox, ow = graded(1.0, 3.0, [1.0, 2.0, 3.0], n, depth)
+        for x, wx in zip(ox, ow):
+            iy, iw = graded(1.0, 3.0, [1.0, 2.0, 3.0, x], n, depth)
+            X, Y = pt(np.array([x])), pt(iy)
+            r2 = (X[0] - Y[0])**2 + (X[1] - Y[1])**2
+            tot += wx * float(np.sum(iw * (Fl(X) - Fl(Y))**2 / r2))
+        return tot
+    flin = lambda xh, gm: (lambda X: 0.6 * X[0] + 0.8 * X[1])(gm(xh))
+    for N in (21, ):
+        for ang_deg in (90, 120, 135, 60, 100, 75):
+            ang = math.radians(ang_deg)
+            try:
+                got = float(rules[N].seminorm_h_1_2_pw(flin, 1.0, 2.0, fresh_pieces(ang)[0], 2.0, 3.0, fresh_pieces(ang)[1]))
+            except Exception as ex:
+                fr = repo_frame(ex)
+                if fr is None:
+                    raise
+                acc.violation('seminorm-pw-raised:%s' % type(ex).__name__, 'raised at %s:%d' % (fr[1], fr[2]), {'angle_deg': ang_deg})
+                continue
+            r2_ = ref_corner(ang, 14, 10)
+            err = abs(got - r2_) / r2_
+            acc.case('corner-seq|%d|%d' % (N, ang_deg), None)
+            acc.seen('corner:same-intervals-sequence')
+            acc.worst_of('corner sequence rel.err / 1e-8', err / 1e-8)
+            if not (err <= 1e-8):
+                acc.violation('seminorm-pw-inexact', 'order %d, corner of %d degrees after other corners on the same rule object: %.15g vs reference %.15g (rel %.2e)'
+                              % (N, ang_deg, got, r2_, err), {'order': N, 'angle_deg': ang_deg, 'sequence': [90, 120, 135, 60, 100, 75]})
     for case in range(spec['n']):
         N = rng.choice([17, 21])
-        S = Slobodeckij(N)
+        S = rules[N]
         ang = rng.choice([math.pi / 2, math.pi / 2, 3 * math.pi / 2, rng.uniform(0.4, 2.7), rng.uniform(3.5, 5.8)])
         h1 = rng.choice([1.0, 0.5, 0.25, 2.0])
         ratio = rng.choice([1.0, 1.0, 0.5, 2.0])
